@@ -5,7 +5,7 @@ import os
 VERIF = os.path.dirname(os.path.dirname(os.path.abspath(__file__)))
 
 HOOK_COMMITS = ["b9d4bd0", "034d117", "c156e58", "3391c72"]
-FIX_COMMITS = ["d307ba7", "1245628", "e2789dc", "37d0178", "8d97c84", "106b808", "4ace02c", "398b1f9", "8e20502", "758bf79", "bcb9d1c", "736daa9", "680eb52", "15107c2", "4063672", "617df8f", "9d2bbf4", "e5013fd", "66a999c", "2a265e3", "cfd75aa", "dbe51ea", "cd9bfc4", "83aed22", "0c6007e", "f93d75f", "7cb8266"]
+FIX_COMMITS = ["d307ba7", "1245628", "e2789dc", "37d0178", "8d97c84", "106b808", "4ace02c", "398b1f9", "8e20502", "758bf79", "bcb9d1c", "736daa9", "680eb52", "15107c2", "4063672", "617df8f", "9d2bbf4", "e5013fd", "66a999c", "2a265e3", "cfd75aa", "dbe51ea", "cd9bfc4", "83aed22", "0c6007e", "f93d75f", "7cb8266", "0a75364"]
 
 TRUST = ("TLC 1.8 and the TLA+ reference modules (cross-validated against gcc 12 / gfortran / git where an "
          "external tool exists); the Python harness only materialises TLC-generated cases, reformats traces and "
